@@ -161,6 +161,24 @@ class Freshness:
         cache[fi.qualname] = out
         return out
 
+    def _local_stores(self, fi: FuncInfo, name: str):
+        """(value expr, cfg node, mode) for every element store into the local container `name`."""
+        from .model import walk_no_nested
+
+        flow = flow_of(fi.node)
+        out = []
+        for n in walk_no_nested(fi.node):
+            if isinstance(n, ast.Assign):
+                for t in n.targets:
+                    if isinstance(t, ast.Subscript) and isinstance(t.value, ast.Name) and t.value.id == name:
+                        out.append((n.value, flow.node_containing(n), "value"))
+            elif isinstance(n, ast.Call) and isinstance(n.func, ast.Attribute) and isinstance(n.func.value, ast.Name) and n.func.value.id == name and n.args:
+                if n.func.attr in ("append", "add", "setdefault", "insert"):
+                    out.append((n.args[-1], flow.node_containing(n), "value"))
+                elif n.func.attr in ("update", "extend"):
+                    out.append((n.args[0], flow.node_containing(n), "elems"))
+        return [(v, nd, m) for (v, nd, m) in out if nd is not None]
+
     # ------------------------------------------------------------ summaries
     def summary(self, fi: FuncInfo) -> AV:
         """Abstract value returned by fi (join over its return statements)."""
@@ -329,7 +347,29 @@ class Freshness:
                     vals.append(AV("unknown", why="with"))
                 else:
                     vals.append(AV("unknown", why=d.kind))
-            return join(vals)
+            res = join(vals)
+            # a local container filled by item stores / append / update after it was created
+            # (`out = {}; out[k] = v; return out`): its elements are whatever was stored into it
+            if res.kind == "cont" and any(d.kind == "assign" and not d.path and isinstance(d.value, (ast.Dict, ast.List, ast.Set, ast.Call)) for d in ds) and depth < 12:
+                stored = self._local_stores(fi, e.id)
+                if stored:
+                    guard = getattr(self, "_store_guard", None)
+                    if guard is None:
+                        guard = self._store_guard = set()
+                    key = (fi.qualname, e.id)
+                    if key not in guard:
+                        guard.add(key)
+                        try:
+                            extra = []
+                            for (v, nd, mode) in stored:
+                                av = self.eval(fi, v, nd, env, depth + 1)
+                                if mode == "elems":  # update/extend: the argument's elements are stored
+                                    av = av.elem() if av.kind == "cont" else av
+                                extra.append(av)
+                            res = AV("cont", res.owner, list(res.elems) + extra, why=res.why)
+                        finally:
+                            guard.discard(key)
+            return res
         if isinstance(e, ast.Attribute):
             d = dotted(e)
             base = e.value
